@@ -57,12 +57,21 @@ META = dict(
                  'single queue operations are atomic'],
 )
 
-WAIT = 120.0           # seconds a baton wait may take before the harness declares itself stuck
+# Seconds the scheduler waits for a thread to give the baton back.  Under strict alternation a
+# hand-off takes microseconds; the limit only exists so that a run cannot hang for ever.  Reaching
+# it says nothing about the property (a loaded machine, a stopped process): the schedule is
+# retried and, if need be, skipped with a note -- it is NEVER reported as a violation.
+WAIT = float(os.environ.get('VERIF_C08_WAIT', '600'))
+RETRIES = 3
 MJD = 60000.5
 
 
 class HarnessError(Exception):
     pass
+
+
+class HarnessTimeout(HarnessError):
+    """a baton hand-off (or thread start / join) did not complete within WAIT: inconclusive"""
 
 
 class _Blocked(BaseException):
@@ -92,17 +101,18 @@ class Env:
             def __init__(self, maxsize=0):
                 super().__init__(maxsize)
                 self.cid = None
-                if env.rig is not None:
-                    env.rig.new_queue(self)
+                self.rig = env.rig          # the rig this queue belongs to, for good
+                if self.rig is not None:
+                    self.rig.new_queue(self)
 
             def get(self, block=True, timeout=None):
-                rig = env.rig
+                rig = self.rig
                 if rig is None or self.cid is None:
                     return super().get(block, timeout)
                 return rig.q_get(self, lambda: _queue.Queue.get(self, False), block, timeout)
 
             def put(self, item, block=True, timeout=None):
-                rig = env.rig
+                rig = self.rig
                 if rig is None or self.cid is None:
                     return super().put(item, block, timeout)
                 return rig.q_put(self, item, lambda: _queue.Queue.put(self, item, False),
@@ -152,10 +162,11 @@ class Actor:
     def park(self, where):
         if self.free:
             return
+        if self.rig.aborting:
+            raise _Abort()
         self.where = where
         self.rig.back.release()
-        if not self.go.acquire(timeout=WAIT):
-            raise _Abort()
+        self.go.acquire()           # no limit: a thread may wait for its turn as long as it takes
         if self.rig.aborting and not self.free:
             raise _Abort()
 
@@ -171,10 +182,16 @@ class Actor:
                 self.error = ex
             finally:
                 self.done = True
-                self.rig.back.release()
+                if not self.rig.aborting:
+                    self.rig.back.release()
         self.thread = threading.Thread(target=body, daemon=True)
         self.rig.current = self
-        self.thread.start()
+        try:
+            self.thread.start()
+        except RuntimeError as ex:      # "can't start new thread": resources, not the property
+            self.thread = None
+            self.rig.abandon()
+            raise HarnessTimeout('cannot start a thread: %s' % ex)
         self.rig.wait_back()
 
     def resume(self):
@@ -221,6 +238,8 @@ class HandQ:
         self.rig, self.tag, self.items = rig, tag, []
 
     def put(self, q, block=True, timeout=None):
+        if self.rig.aborting:
+            raise _Abort()
         self.items.append(q)
         self.rig.client_log.append((self.tag, q))
 
@@ -228,6 +247,8 @@ class HandQ:
 
     def get(self, block=True, timeout=None):
         rig = self.rig
+        if rig.aborting:
+            raise _Abort()
         if threading.current_thread() is rig.pub.thread:
             rig.pub.park(self.tag)
         if not self.items:
@@ -309,9 +330,17 @@ class Rig:
 
     def wait_back(self):
         if not self.back.acquire(timeout=WAIT):
-            self.aborting = True
-            raise HarnessError('scheduler: thread %s did not give the baton back'
-                               % (self.current.name if self.current else '?'))
+            name = self.current.name if self.current else '?'
+            self.abandon()
+            raise HarnessTimeout('scheduler: thread %s did not give the baton back within %.0f s'
+                                 % (name, WAIT))
+
+    def abandon(self):
+        """give the rig up: every thread of it unwinds (with _Abort) as soon as it runs again and
+        never touches another rig"""
+        self.aborting = True
+        for a in [self.pub] + list(self.clients.values()):
+            a.go.release()
 
     # -- instrumentation call-backs -------------------------------------------------
     def new_queue(self, q):
@@ -326,6 +355,8 @@ class Rig:
 
     def q_get(self, q, do_get, block, timeout):
         Empty = _queue.Empty
+        if self.aborting:
+            raise _Abort()
         if threading.current_thread() is self.pub.thread:
             self.pub.park('C')
             try:
@@ -348,6 +379,8 @@ class Rig:
         return item
 
     def q_put(self, q, item, do_put, block, timeout):
+        if self.aborting:
+            raise _Abort()
         if threading.current_thread() is self.pub.thread:
             self.pub.park('P')
             if q.full():
@@ -470,6 +503,9 @@ class Rig:
 
     def teardown(self):
         self.stopping = True
+        if self.aborting:
+            self.abandon()
+            return
         p = self.pub
         if p.thread is not None and not p.done:
             p.free = True
@@ -482,7 +518,8 @@ class Rig:
                 a.thread.join(WAIT)
         alive = [a.name for a in [p] + list(self.clients.values()) if a.thread and a.thread.is_alive()]
         if alive:
-            raise HarnessError('threads still alive after teardown: %s' % alive)
+            self.abandon()
+            raise HarnessTimeout('threads still alive %.0f s after teardown: %s' % (WAIT, alive))
 
 
 # ---------------------------------------------------------------------------
@@ -552,6 +589,32 @@ def run_schedule(env, sched):
         finally:
             env.rig = None
     return trace, facts
+
+
+def run_schedule_robust(env, sched, ctx=None):
+    """run_schedule, retried when a hand-off timed out; None when it cannot be completed (the
+    schedule is then skipped: inconclusive, never a violation)"""
+    last = None
+    for _ in range(RETRIES):
+        try:
+            return run_schedule(env, sched)
+        except HarnessTimeout as ex:
+            last = ex
+    if ctx is not None:
+        ctx.count('skipped_handoff_timeout')
+        if ctx.histogram.get('skipped_handoff_timeout', 0) <= 3:
+            ctx.note('schedule skipped (inconclusive): %s' % last)
+    return None
+
+
+def measure_period_robust(env):
+    last = None
+    for _ in range(RETRIES):
+        try:
+            return measure_period(env)
+        except HarnessTimeout as ex:
+            last = ex
+    raise last
 
 
 def measure_period(env):
@@ -822,13 +885,17 @@ def all_schedules(ctx, period, for_oracle):
 # ---------------------------------------------------------------------------
 # correspondence
 
-def correspondence(ctx):
+def gen_cases(ctx):
+    """run the correspondence schedules on the implementation -> list of Coq case terms"""
     with Env() as env:
-        period = measure_period(env)
+        period = measure_period_robust(env)
         ctx.note('measured publication period = %d iterations' % period)
         cases = []
         for kind, sched in all_schedules(ctx, period, for_oracle=False):
-            trace, facts = run_schedule(env, sched)
+            res = run_schedule_robust(env, sched, ctx)
+            if res is None:
+                continue
+            trace, facts = res
             caps = set(facts['cap'].values()) or {1}
             if len(caps) != 1:
                 raise HarnessError('client queues of different capacity: %r' % caps)
@@ -846,9 +913,21 @@ def correspondence(ctx):
             ctx.count('steps', sum(len(t['ops']) for t in trace))
             for k, v in trace_features(trace).items():
                 ctx.count(k, v)
-        ctx.sample(cases[0][:600])
-        ctx.run_cases('publisher', 'From DS Require Import Model.PubModel Corr.PubCorr.', 'pcase',
-                      'ok', cases, show='show', shard=ctx.n(20, 60))
+    return cases
+
+
+def correspondence(ctx):
+    try:
+        cases = gen_cases(ctx)
+    except HarnessTimeout as ex:      # machine too loaded even to measure the period: inconclusive
+        ctx.note('correspondence not run (inconclusive): %s' % ex)
+        return
+    if not cases:
+        ctx.note('correspondence: every schedule was skipped (hand-off timeouts)')
+        return
+    ctx.sample(cases[0][:600])
+    ctx.run_cases('publisher', 'From DS Require Import Model.PubModel Corr.PubCorr.', 'pcase',
+                  'ok', cases, show='show', shard=ctx.n(20, 60), timeout=3000)
 
 
 # ---------------------------------------------------------------------------
@@ -1036,9 +1115,12 @@ def shrink(env, sched, klass):
     """greedy: cut after the failing step, then drop single items / whole clients"""
     def fails(s):
         try:
-            tr, fa = run_schedule(env, s)
+            res = run_schedule_robust(env, s)
         except HarnessError:
             return None
+        if res is None:
+            return None
+        tr, fa = res
         v = check_trace(tr, fa)
         return v if v and v[0] == klass else None
     v = fails(sched)
@@ -1071,18 +1153,28 @@ def shrink(env, sched, klass):
 def oracle(ctx):
     checked = steps = 0
     seen = set()
+    period = None
     with Env() as env:
-        period = measure_period(env)
+        try:
+            period = measure_period_robust(env)
+        except HarnessTimeout as ex:
+            ctx.note('oracle not run (inconclusive): %s' % ex)
+            return
         for kind, sched in all_schedules(ctx, period, for_oracle=True):
-            trace, facts = run_schedule(env, sched)
+            res = run_schedule_robust(env, sched, ctx)
+            if res is None:
+                continue
+            trace, facts = res
             checked += 1
             steps += len(sched)
             v = check_trace(trace, facts)
             if v and v[0] not in seen:
                 seen.add(v[0])
                 small = shrink(env, sched, v[0])
-                tr, fa = run_schedule(env, small)
-                v2 = check_trace(tr, fa) or v
+                res2 = run_schedule_robust(env, small)
+                v2 = (check_trace(*res2) if res2 else None) or v
+                if v2 is v:
+                    small = sched
                 ctx.fail(v2[0], v2[1], dict(schedule=[list(x) for x in small], step=v2[2], kind=kind))
     ctx.oracle_stats = dict(schedules=checked, steps=steps, period=period)
     ctx.evaluations += checked
@@ -1092,8 +1184,11 @@ def replay(ctx, obj):
     w = obj['witness']
     sched = [tuple(x) for x in w['schedule']]
     with Env() as env:
-        trace, facts = run_schedule(env, sched)
-    v = check_trace(trace, facts)
+        res = run_schedule_robust(env, sched)
+    if res is None:
+        print('  replay: inconclusive (hand-off timeouts)')
+        return False
+    v = check_trace(*res)
     if v:
         print('  replay: %s: %s (step %d)' % v)
     return v is not None
